@@ -382,6 +382,35 @@ def run(tier: str) -> int:
                          note="Lean spec tokenizer vs html.parser")
             if sum(1 for v in ch.violations if v["stream"] == "parser") > 2:
                 break
+    # histories: the same defaults / attrs objects reach html_attrs several times (loop rows, later renders);
+    # every call must emit what the same call emits alone, and the caller's dicts stay as they were
+    import copy as _copy
+    from django.template import Context, Template
+    n_h = int((150 if tier == "quick" else 5000) * ch.budget_scale)
+    for i in range(n_h):
+        r = core.rng(PROP, "history", i)
+        defaults = {k: py_val(v) for k, v in gen_attrs_case(r, False)["defaults"] + [["class", ["s", "base"]]] if isinstance(py_val(v), str)}
+        rows = []
+        for _ in range(r.randint(2, 4)):
+            rows.append({k: py_val(v) for k, v in gen_attrs_case(r, False)["attrs"] if isinstance(py_val(v), str)})
+        shared = r.random() < 0.5
+        src = "{% for row in rows %}<li {% html_attrs attrs=row defaults=defaults %}>{% endfor %}" if r.random() < 0.5 else \
+              "{% for row in rows %}<li {% html_attrs row defaults %}>{% endfor %}"
+        one = "<li {% html_attrs attrs=row defaults=defaults %}>"
+        ch.count("history", 1, len(rows))
+        alone = "".join(Template(one).render(Context({"row": _copy.deepcopy(row), "defaults": _copy.deepcopy(defaults)})) for row in rows)
+        d0, rows0 = _copy.deepcopy(defaults), _copy.deepcopy(rows)
+        try:
+            got = Template(src).render(Context({"rows": rows, "defaults": defaults}))
+            again = Template(src).render(Context({"rows": rows, "defaults": defaults}))
+        except Exception as e:  # noqa
+            got = again = "ERR " + type(e).__name__
+        if got != alone or again != alone or defaults != d0 or rows != rows0:
+            ch.violation("impl-violates-spec", "history", {"template": src, "defaults": d0, "rows": rows0},
+                         impl={"first_render": got, "second_render": again, "defaults_after": defaults, "rows_after": rows},
+                         spec={"each_call_alone": alone},
+                         note="html_attrs calls that share the defaults / attrs objects do not emit what each call emits alone")
+            break
     ch.cov["rule"] = (
         f"{n} html_attrs cases (0-3 defaults, 0-3 attrs, 0-3 keywords incl. repeats; names from {len(NAMES_OK)} valid + every 6th case "
         f"{len(NAMES_BAD)} invalid names; values built from {len(VALUE_TEXT)} text pieces, numbers, bool, None, SafeString; positional / "
